@@ -327,11 +327,11 @@ pub async fn receive(zone: &Zone, msgs: &[Vec<u8>], per_update: bool) -> RxLog {
 #[derive(Clone)]
 pub struct NextSvc;
 
-impl Service<Vec<u8>, ()> for NextSvc {
+impl<M: Clone + Default> Service<Vec<u8>, M> for NextSvc {
     type Target = Vec<u8>;
     type Stream = Once<Ready<ServiceResult<Self::Target>>>;
     type Future = Ready<Self::Stream>;
-    fn call(&self, _request: Request<Vec<u8>, ()>) -> Self::Future {
+    fn call(&self, _request: Request<Vec<u8>, M>) -> Self::Future {
         panic!("C10 harness: next service must not be called for XFR requests")
     }
 }
@@ -343,11 +343,11 @@ pub struct Provider {
     pub compat: bool,
 }
 
-impl XfrDataProvider<()> for Provider {
+impl<M> XfrDataProvider<M> for Provider {
     type Diff = Arc<InMemoryZoneDiff>;
     fn request<Octs>(
         &self,
-        req: &Request<Octs, ()>,
+        req: &Request<Octs, M>,
         diff_from: Option<Serial>,
     ) -> Pin<Box<dyn Future<Output = Result<XfrData<Self::Diff>, XfrDataProviderError>> + Sync + Send + '_>>
     where
@@ -586,4 +586,72 @@ pub fn answer_summary(zone: &Zone, owner_wire: &[u8], rtype: u16) -> String {
             format!("rcode={} {} authority={}", a.rcode(), content, a.authority().is_some())
         }
     }
+}
+
+//------------ TSIG in front of the XFR middleware ---------------------------------------
+
+/// Serves the request through TsigMiddlewareSvc -> XfrMiddlewareSvc (the
+/// stack an application builds), with a request signed by a TSIG client
+/// sequence; every response is validated by that sequence (which strips the
+/// TSIG record) before it is returned. `Err` = the signed stream is not a
+/// valid TSIG-protected answer stream.
+///
+/// Uses the wall clock for the TSIG time fields (the middleware compares the
+/// request's time with its own clock); the outcome does not depend on its
+/// value.
+pub async fn serve_tsig(provider: Provider, apex: &Labels, ixfr_from: Option<u32>, id: u16) -> Result<(Vec<Vec<u8>>, Vec<usize>), String> {
+    use domain::base::iana::Rcode;
+    use domain::base::MessageBuilder;
+    use domain::net::server::middleware::tsig::TsigMiddlewareSvc;
+    use domain::rdata::tsig::Time48;
+    use domain::tsig::{Algorithm, ClientSequence, Key, KeyName};
+    use std::str::FromStr;
+    let key_name = KeyName::from_str("c10-key").map_err(|e| format!("{e}"))?;
+    let key = Arc::new(Key::new(Algorithm::Sha256, &[7u8; 32], key_name, None, None).map_err(|e| format!("{e}"))?);
+    let svc = XfrMiddlewareSvc::<Vec<u8>, NextSvc, Option<Arc<Key>>, Provider>::new(NextSvc, provider, 1);
+    let svc = TsigMiddlewareSvc::<Vec<u8>, _, _, ()>::new(svc, key.clone());
+
+    let mut msg = MessageBuilder::new_vec();
+    msg.header_mut().set_id(id);
+    let mut msg = msg.question();
+    msg.push((gn::to_name(apex), Rtype::from_int(if ixfr_from.is_some() { 251 } else { 252 }))).map_err(|e| format!("{e}"))?;
+    let mut msg = msg.authority();
+    if let Some(s) = ixfr_from {
+        let n: Name<Vec<u8>> = Name::from_str("m.").unwrap();
+        let t = Ttl::from_secs(0);
+        let soa = domain::rdata::Soa::new(n.clone(), n, Serial(s), t, t, t, t);
+        msg.push((gn::to_name(apex), Class::IN, t, soa)).map_err(|e| format!("{e}"))?;
+    }
+    let mut msg = msg.additional();
+    let mut client = ClientSequence::request(key.clone(), &mut msg, Time48::now()).map_err(|e| format!("signing the request: {e}"))?;
+    let req = Request::new(
+        "127.0.0.1:12345".parse().unwrap(),
+        tokio::time::Instant::now(),
+        msg.into_message(),
+        TransportSpecificContext::NonUdp(NonUdpTransportContext::new(None)),
+        (),
+    );
+    let mut stream = svc.call(req).await;
+    let mut out = vec![];
+    let mut wire_lens = vec![];
+    let mut n = 0usize;
+    while let Some(item) = stream.next().await {
+        let item = item.map_err(|e| format!("service error in stream: {e:?}"))?;
+        let (resp, _fb) = item.into_inner();
+        let Some(resp) = resp else { continue };
+        n += 1;
+        let wire = resp.finish().as_dgram_slice().to_vec();
+        wire_lens.push(wire.len());
+        if wire.len() > 65535 {
+            return Err(format!("response {n} has {} octets", wire.len()));
+        }
+        let mut m = Message::from_octets(wire).map_err(|e| format!("response {n}: {e}"))?;
+        if m.header().tc() || m.header().rcode() != Rcode::NOERROR {
+            return Err(format!("response {n} of the signed stream: tc={} rcode={} ancount={}", m.header().tc(), m.header().rcode(), m.header_counts().ancount()));
+        }
+        client.answer(&mut m, Time48::now()).map_err(|e| format!("response {n} fails TSIG validation: {e}"))?;
+        out.push(m.as_slice().to_vec());
+    }
+    client.done().map_err(|e| format!("TSIG sequence not complete after {n} responses: {e}"))?;
+    Ok((out, wire_lens))
 }
